@@ -95,6 +95,7 @@ impl<'a> Name<'a> {
     }
     open spec fn wf_cdec(data: Seq<u8>, p: int, v: &Self, p2: int) -> bool { Self::wf_dec(data, p, v, p2) }
     open spec fn wf_canon(&self) -> bool { true }
+    open spec fn wf_in_rdata() -> bool { true }
     open spec fn wf_nocomp() -> bool { false }
     proof fn lemma_rt(&self, pre: Seq<u8>) {
         lemma_name_roundtrip(pre, self.lv(), Seq::empty());
